@@ -299,7 +299,8 @@ def execute(scn):
             if k in ("create", "validates"):
                 # version names are free text; some collide after title-casing or look like a draft's name
                 version = ["dsim c20 v%d" % step, "Dsim C20 V%d" % max(0, step - 1), "dsim  c20 v%d" % step,
-                           ["draft 4", "Draft 7", "draft 3", "draft 6"][step % 4] + " " * (step // 4)][op["v"] % 4]
+                           ["draft 4", "Draft 7", "draft8", "draft 3", "Draft 2019-09", "draft 6", "draft-08",
+                            "DRAFT 12"][step % 8] + " " * (step // 8)][op["v"] % 4]
                 if k == "create":
                     cls, uid = make_class(op, step, version)
                 else:
@@ -417,7 +418,8 @@ def execute(scn):
                     probe("unknown_uri_warned")
                 if got is not want:
                     violations.append({"oracle": "validator_for-selected-wrong-class", "where": step, "op": k,
-                                       "detail": {"schema": dict(schema), "mapping_type": type(schema).__name__,
+                                       "detail": {"schema": dict(schema) if not isinstance(schema, bool) else schema,
+                                                  "mapping_type": type(schema).__name__,
                                                   "default": op.get("default"),
                                                   "got": notes.get(id(got), repr(got)), "want": notes.get(id(want))}})
                 elif bool(warned) != want_warn:
